@@ -8,6 +8,7 @@ import (
 	"path/filepath"
 	"sort"
 	"strings"
+	"sync"
 
 	"jrpcvet/internal/chk"
 	"jrpcvet/internal/facts"
@@ -122,33 +123,43 @@ func SelfTest(def *Def, res *chk.Result, repo string) {
 	}
 	detected, stale, missed := 0, 0, []string{}
 	var samples []string
-	for _, sd := range seeds {
+	type seedRes struct {
+		name, hit string
+		stale     bool
+	}
+	sres := make([]seedRes, len(seeds))
+	parallel(len(seeds), func(i int) {
+		sd := seeds[i]
+		sres[i].name = filepath.Base(sd)
 		dir, err := copyTree(repo)
 		if err != nil {
-			stale++
-			continue
+			sres[i].stale = true
+			return
 		}
+		defer os.RemoveAll(dir)
 		if !applyPatch(dir, filepath.Join(sd, "patch.diff")) {
-			stale++
-			os.RemoveAll(dir)
-			continue
+			sres[i].stale = true
+			return
 		}
 		obs, _ := Analyse(def, load.Config{Dir: dir}, "quick")
-		os.RemoveAll(dir)
-		hit := ""
 		for _, o := range obs {
 			if o.Status != chk.OK && !base[o.Key()] {
-				hit = o.Rule + " @ " + o.Func
+				sres[i].hit = o.Rule + " @ " + o.Func
 				break
 			}
 		}
-		if hit != "" {
+	})
+	for _, r := range sres {
+		switch {
+		case r.stale:
+			stale++
+		case r.hit != "":
 			detected++
 			if len(samples) < 6 {
-				samples = append(samples, filepath.Base(sd)+" → "+hit)
+				samples = append(samples, r.name+" → "+r.hit)
 			}
-		} else {
-			missed = append(missed, filepath.Base(sd))
+		default:
+			missed = append(missed, r.name)
 		}
 	}
 	st["seeded_variants"] = len(seeds)
@@ -164,32 +175,41 @@ func SelfTest(def *Def, res *chk.Result, repo string) {
 	sort.Strings(rfs)
 	silent, rstale := 0, 0
 	if clean {
-		for _, rf := range rfs {
+		type rfRes struct {
+			name, alarm string
+			stale       bool
+		}
+		rres := make([]rfRes, len(rfs))
+		parallel(len(rfs), func(i int) {
+			rf := rfs[i]
+			rres[i].name = filepath.Base(filepath.Dir(rf))
 			dir, err := copyTree(repo)
 			if err != nil {
-				rstale++
-				continue
+				rres[i].stale = true
+				return
 			}
+			defer os.RemoveAll(dir)
 			if !applyPatch(dir, rf) {
-				rstale++
-				os.RemoveAll(dir)
-				continue
+				rres[i].stale = true
+				return
 			}
 			obs, _ := Analyse(def, load.Config{Dir: dir}, "quick")
-			os.RemoveAll(dir)
-			alarm := ""
 			for _, o := range obs {
 				if o.Status != chk.OK {
-					alarm = fmt.Sprintf("%s in %s :: %s", o.Rule, o.Func, o.Construct)
+					rres[i].alarm = fmt.Sprintf("%s in %s :: %s", o.Rule, o.Func, o.Construct)
 					break
 				}
 			}
-			name := filepath.Base(filepath.Dir(rf))
-			if alarm == "" {
+		})
+		for _, r := range rres {
+			switch {
+			case r.stale:
+				rstale++
+			case r.alarm == "":
 				silent++
-			} else {
-				res.Obs = append(res.Obs, chk.Obligation{Rule: "SELFTEST", Clause: "self-validation", Func: "-", Construct: "refactor " + name, Site: "-", Status: chk.Undecided,
-					Detail: "the behaviour-preserving variant " + name + " raises " + alarm + ": the rule is too rigid (false alarm)", Nontrivial: true})
+			default:
+				res.Obs = append(res.Obs, chk.Obligation{Rule: "SELFTEST", Clause: "self-validation", Func: "-", Construct: "refactor " + r.name, Site: "-", Status: chk.Undecided,
+					Detail: "the behaviour-preserving variant " + r.name + " raises " + r.alarm + ": the rule is too rigid (false alarm)", Nontrivial: true})
 			}
 		}
 	}
@@ -198,4 +218,28 @@ func SelfTest(def *Def, res *chk.Result, repo string) {
 	st["refactor_stale"] = rstale
 	st["refactors_run"] = clean
 	res.Extra["selftest"] = st
+}
+
+// parallel runs fn(0..n-1) on a small worker pool (each variant load needs a few hundred MB).
+func parallel(n int, fn func(i int)) {
+	workers := 6
+	if n < workers {
+		workers = n
+	}
+	var wg sync.WaitGroup
+	next := make(chan int)
+	for w := 0; w < workers; w++ {
+		wg.Add(1)
+		go func() {
+			defer wg.Done()
+			for i := range next {
+				fn(i)
+			}
+		}()
+	}
+	for i := 0; i < n; i++ {
+		next <- i
+	}
+	close(next)
+	wg.Wait()
 }
